@@ -284,6 +284,6 @@ HARNESSES = {
     'subarray_window': {'configs': cfg_sub, 'run': run_sub, 'small': 8},
     'boundary_family': {'configs': cfg_bnd, 'run': run_bnd, 'small': 4},
     'rebin': {'configs': cfg_rebin, 'run': run_rebin, 'small': 4},
-    'shapes': {'configs': cfg_shapes, 'run': run_shapes, 'small': 4, 'config_timeout_s': 300},
-    'hex_segments': {'configs': cfg_hex, 'run': run_hex, 'small': 8, 'config_timeout_s': 300},
+    'shapes': {'configs': cfg_shapes, 'run': run_shapes, 'small': 4, 'config_timeout_s': 600},
+    'hex_segments': {'configs': cfg_hex, 'run': run_hex, 'small': 8, 'config_timeout_s': 600},
 }
